@@ -196,10 +196,19 @@ def run(ctx):
         inv_rest = "VIEW cvars\nCONSTRAINT LevelBound\nINVARIANTS " + MC_INVS
         if q:
             mc_cfg(sd, "r1a.cfg", confs="ConfsTiny", depth=6, log="LogNone", rest=inv_rest)
+            ra = ctx.tlc(sd, "MC_Delegation", "r1a.cfg", timeout=3000)
+            ctx.notes.append("R1a %.0fs %d states" % (ra.wall, ra.distinct))
         else:
-            mc_cfg(sd, "r1a.cfg", confs="ConfsMedium", fees="0, 2500", caps="0, 9", depth=7, log="LogNone", rest=inv_rest)
-        ra = ctx.tlc(sd, "MC_Delegation", "r1a.cfg", timeout=3000, coverage=not q)
-        ctx.notes.append("R1a %.0fs %d states" % (ra.wall, ra.distinct))
+            mc_cfg(sd, "r1a.cfg", confs="ConfsMedium", fees="0, 2500", caps="0, 9", depth=6, log="LogNone", rest=inv_rest)
+            ra = ctx.tlc(sd, "MC_Delegation", "r1a.cfg", timeout=6000)
+            ctx.notes.append("R1a 8 configurations depth 6: %.0fs %d states" % (ra.wall, ra.distinct))
+            mc_cfg(sd, "r1a2.cfg", confs="ConfsTiny", depth=7, log="LogNone", rest=inv_rest)
+            ra2 = ctx.tlc(sd, "MC_Delegation", "r1a2.cfg", timeout=6000)
+            ctx.notes.append("R1a depth 7: %.0fs %d states" % (ra2.wall, ra2.distinct))
+            mc_cfg(sd, "r1a3.cfg", confs="ConfsSmall", fees="0, 2500", caps="0, 9", depth=5, log="LogNone", rest=inv_rest)
+            ra3 = ctx.tlc(sd, "MC_Delegation", "r1a3.cfg", timeout=3000, coverage=True)     # vacuity guard
+            if ra3.coverage_zero:
+                ctx.broken.append("vacuity guard (TLC -coverage): never taken: %s" % ", ".join(sorted(set(ra3.coverage_zero))))
         mc_cfg(sd, "r1b.cfg", defects="StaleCheckpointDefect", depth=7, log="LogNone", rest=inv_rest)
         rb = ctx.tlc(sd, "MC_Delegation", "r1b.cfg", timeout=900, allow=("invariant",))
         if rb.error not in ("invariant:Inv_C38_rewards_owed", "invariant:Inv_C38_rewards"):
@@ -215,10 +224,11 @@ def run(ctx):
         if q:
             mc_cfg(sd, "gen.cfg", spec="GenSpec", defects="StaleCheckpointDefect", log="LogSlim", depth=5, rest=gen_rest)
         else:
-            mc_cfg(sd, "gen.cfg", spec="GenSpec", defects="StaleCheckpointDefect", log="LogSlim", depth=7, confs="ConfsSmall",
+            mc_cfg(sd, "gen.cfg", spec="GenSpec", defects="StaleCheckpointDefect", log="LogSlim", depth=6, confs="ConfsSmall",
                    rest=gen_rest)
         beh = ctx.path("edges.ndjson")
-        g = ctx.tlc(sd, "MC_Delegation", "gen.cfg", timeout=3000, behaviours_out=beh, count=False)
+        g = ctx.tlc(sd, "MC_Delegation", "gen.cfg", timeout=3000, behaviours_out=beh, count=False,
+                    workers=1 if q else None)   # one worker: strict BFS order, so the cover is the same on every run
         ctx.notes.append("gen %.0fs %d behaviours" % (g.wall, g.behaviours))
         if g.ok and g.behaviours == 0:
             ctx.broken.append("behaviour export produced nothing")
@@ -231,14 +241,14 @@ def run(ctx):
                amounts="1, 2, 3, 4, 5, 6, 9, 14", rewards="0, 7, 10, 40", fees="0, 1000, 2500, 10000", caps="0, 14, 30",
                maxepoch=8, maxtotal=60, maxrew=12, rest=sim_rest)
         beh2 = ctx.path("sim.ndjson")
-        g2 = ctx.tlc(sd, "MC_Delegation", "sim.cfg", simulate=30 if q else 600, depth=40, timeout=1800, behaviours_out=beh2, count=False)
+        g2 = ctx.tlc(sd, "MC_Delegation", "sim.cfg", simulate=20 if q else 600, depth=40, timeout=1800, behaviours_out=beh2, count=False)
         ctx.notes.append("sim %.0fs %d behaviours" % (g2.wall, g2.behaviours))
         replay_and_check(ctx, sd, exe, beh2, "mismatch2.ndjson", "replayed TLC behaviour (simulation)")
 
     ctx.notes.append("t+%.0fs before r3" % (time.time() - ctx.t0))
     if want("r3"):
         tr = os.path.join(sd, "trace.ndjson")
-        nt, ln = (100, 60) if q else (1500, 80)
+        nt, ln = (80, 60) if q else (1200, 80)
         r3 = ctx.vh(exe, ["record", ctx.seed, nt, ln, tr])
         st = validate(ctx, sd, tr, int(r3.stats.get("events", 0)), "random history on the real delegation contract")
         if st in ("accepted", "drift"):
